@@ -56,10 +56,16 @@ type bucketObjectIterator struct {
 	cur      *bucketData
 	seenData bool
 	done     bool
+	didSeek  bool
 }
 
 func (b *bucketObjectIterator) Seek(key gofakes3.VersionID) bool {
-	if b.iter.Seek(key) {
+	// iter is nil if the object has no versions other than the current one:
+	if b.iter != nil && b.iter.Seek(key) {
+		// The skiplist iterator now points at the sought version; the next
+		// call to Next() must yield it rather than advance past it, the
+		// same way it does when the sought version is the current one:
+		b.didSeek = true
 		return true
 	}
 
@@ -80,7 +86,8 @@ func (b *bucketObjectIterator) Next() bool {
 	}
 
 	if b.iter != nil {
-		iterAlive := b.iter.Next()
+		iterAlive := b.didSeek || b.iter.Next()
+		b.didSeek = false
 		if iterAlive {
 			b.cur = b.iter.Value().(*bucketData)
 			return true
